@@ -27,7 +27,7 @@ TSPANS = [s for s in timegrid.SPANS_MS if 10 <= s <= 73050 * timegrid.D]
 def bounds(tier, seed):
     return {"linear": {"values": len(lingrid.values(tier)), "m": LIN_MS},
             "time": {"spans_ms": [TSPANS[0], TSPANS[-1]], "rungs": len(TSPANS), "counts": TIME_MS,
-                     "starts": "month-end days 2019-2020 x 3 tods (+early, seeded)" + ("; every day 2020-2021" if tier == "thorough" else "")}}
+                     "starts": "month-end days 2019-2020 x 3 tods (+early, seeded)" + ("; every day 2019-2024" if tier == "thorough" else "")}}
 
 
 # ------------------------------------------------------------------ linear
@@ -167,7 +167,7 @@ def time_starts(kind, seed):
                 out += [d, d + timegrid.TOD1, d + timegrid.TOD2]
         out += timegrid.EARLY + [timegrid.seeded_start(seed)]
     else:
-        for d in timegrid.all_days(2020, 2021):
+        for d in timegrid.all_days(2019, 2024):
             out += [d + timegrid.TOD1]
     return out
 
@@ -179,8 +179,8 @@ def plan(tier, seed):
     for r in range(32):
         shards.append({"kind": "time", "starts": "grid", "seed": seed, "mod": 32, "rem": r})
     if tier == "thorough":
-        for r in range(32):
-            shards.append({"kind": "time", "starts": "days", "seed": seed, "mod": 32, "rem": r})
+        for r in range(96):
+            shards.append({"kind": "time", "starts": "days", "seed": seed, "mod": 96, "rem": r})
     return shards
 
 
